@@ -48,6 +48,9 @@ func runBubble(t *testing.T, sc *gen.Scenario, trace bool, body func(e *Env)) *h
 		// inside this bubble may still exist (C20). Other checks only count it.
 		time.Sleep(30 * time.Second)
 		synctest.Wait()
+		if n := e.DS.OpenIters.Load(); n != 0 && sc.Property == "C20" && out.Violation == nil {
+			out.Violation = &harness.Violation{Class: "iterator_leak", Sig: "open=" + e.DS.OpenIterSigs(), Detail: fmt.Sprintf("%d storage iterators opened during the run were never stopped (30 s virtual after the last call returned and the server was closed): %s", n, e.DS.OpenIterSigs())}
+		}
 		if leaked := LeakedGoroutines(); leaked != "" {
 			out.Leak = leaked
 			if out.Probes == nil {
